@@ -12,7 +12,10 @@ pub struct PathProp {
 }
 
 fn second_problem(scn: &mut Scenario, rng: &mut Xo, families: &[&'static str]) {
-    let mut geo = crate::spaces::geo_for(&scn.space).unwrap();
+    // about a third of the second problems bring their own space object along (tighter bounds,
+    // another motion-check resolution)
+    let own_space = if rng.chance(0.35) { Some(gen::variant_space(rng, &scn.space, None, 0.01)) } else { None };
+    let mut geo = crate::spaces::geo_for(own_space.as_ref().unwrap_or(&scn.space)).unwrap();
     let ext = scn.param("ext").unwrap_or(1.0);
     let fam = *rng.pick(families);
     let wb = gen::build_world(&mut geo, rng, ext, fam);
@@ -22,6 +25,7 @@ fn second_problem(scn: &mut Scenario, rng: &mut Xo, families: &[&'static str]) {
         starts: vec![wb.start],
         goal: GoalSpec { target: wb.target, radius: wb.goal_radius, sampler, sampler_seed: rng.u64() % 1_000_000, comp: wb.goal_comp },
         world: scn.worlds.len() - 1,
+        space: own_space,
     });
     scn.params.insert("sealed1".into(), if wb.sealed { 1.0 } else { 0.0 });
     scn.params.insert("start_invalid1".into(), if wb.start_invalid { 1.0 } else { 0.0 });
@@ -30,7 +34,14 @@ fn second_problem(scn: &mut Scenario, rng: &mut Xo, families: &[&'static str]) {
 /// A second problem in world 0 (the world of the checker that stays installed when a PRM's
 /// problem is replaced); optionally with its start marginally inside one of world 0's balls.
 fn second_problem_same_world(scn: &mut Scenario, rng: &mut Xo, invalid_start: bool) {
-    let mut geo = crate::spaces::geo_for(&scn.space).unwrap();
+    second_problem_same_world_v(scn, rng, invalid_start, false, false)
+}
+
+/// `own_space`: the second problem has its own space object (a variant of the scenario's that
+/// still contains the first start); `same_start`: it starts where the first problem starts.
+fn second_problem_same_world_v(scn: &mut Scenario, rng: &mut Xo, invalid_start: bool, own_space: bool, same_start: bool) {
+    let sp = if own_space { Some(gen::variant_space(rng, &scn.space, Some(&scn.problems[0].starts[0]), 0.01)) } else { None };
+    let mut geo = crate::spaces::geo_for(sp.as_ref().unwrap_or(&scn.space)).unwrap();
     geo.set_worlds(&scn.worlds);
     let mut pick = |rng: &mut Xo| -> St {
         for _ in 0..200 {
@@ -43,6 +54,9 @@ fn second_problem_same_world(scn: &mut Scenario, rng: &mut Xo, invalid_start: bo
         scn.problems[0].starts[0].clone()
     };
     let (mut s2, t2) = (pick(rng), pick(rng));
+    if same_start && geo.in_bounds(&scn.problems[0].starts[0]) {
+        s2 = scn.problems[0].starts[0].clone();
+    }
     let mut inv = false;
     if invalid_start {
         let balls: Vec<(St, f64)> = scn.worlds[0].obstacles.iter().filter_map(|o| if let Obstacle::Ball { c, r } = o { Some((c.clone(), *r)) } else { None }).collect();
@@ -62,6 +76,7 @@ fn second_problem_same_world(scn: &mut Scenario, rng: &mut Xo, invalid_start: bo
         starts: vec![s2],
         goal: GoalSpec { target: t2, radius: g.radius, sampler: g.sampler, sampler_seed: g.sampler_seed + 1, comp: None },
         world: 0,
+        space: sp,
     });
     scn.params.insert("sealed1".into(), 0.0);
     scn.params.insert("start_invalid1".into(), if inv { 1.0 } else { 0.0 });
@@ -80,6 +95,10 @@ pub fn with_setup_histories(scn: &mut Scenario, rng: &mut Xo, max_iters: u64) {
 pub fn with_histories(scn: &mut Scenario, rng: &mut Xo, max_iters: u64, second: &[&'static str], fault_start: bool) {
     if scn.planner.kind == PlannerKind::PRM && fault_start {
         second_problem_same_world(scn, rng, true);
+    } else if scn.planner.kind != PlannerKind::PRM && rng.chance(0.25) {
+        // the same world (hence the same checker object), often the same start, another space
+        let same_start = rng.chance(0.6);
+        second_problem_same_world_v(scn, rng, false, true, same_start);
     } else {
         second_problem(scn, rng, second);
     }
@@ -109,6 +128,14 @@ pub fn with_histories(scn: &mut Scenario, rng: &mut Xo, max_iters: u64, second: 
         }
     };
     scn.calls = calls;
+    // A PRM whose problem is *replaced* keeps the roadmap it built in the first problem's space:
+    // replacing it by a problem over another space is outside what set_problem_definition
+    // promises, so such histories use one space throughout.
+    if scn.calls.iter().any(|c| matches!(c, CallSpec::SetProblem { .. })) {
+        for p in &mut scn.problems {
+            p.space = None;
+        }
+    }
     // histories with more than one solve must not depend on the planner's generator surviving
     for p in &mut scn.problems {
         if p.goal.sampler == GoalSampler::Planner {
@@ -245,6 +272,32 @@ impl Check for PathProp {
             }
             "C02" => {
                 with_setup_histories(&mut scn, &mut rng, o.max_iters);
+            }
+            "C03" if index % 6 == 5 => {
+                // re-setup histories: the second problem may come with a finer or coarser space
+                with_histories(&mut scn, &mut rng, o.max_iters.min(100), &["thin_wall", "thin_wall", "slivers", "slivers", "shell_door", "balls"], false);
+            }
+            "C04" if index % 3 == 2 => {
+                // re-setup histories: tighter bounds on the second problem
+                if scn.planner.kind != PlannerKind::PRM && rng.chance(0.6) {
+                    // the same world, checker object and (mostly) start; only the space is new
+                    let same_start = rng.chance(0.7);
+                    second_problem_same_world_v(&mut scn, &mut rng, false, true, same_start);
+                    let l = crate::spaces::geo_for(&scn.space).unwrap().lvs();
+                    let ext = scn.param("ext").unwrap_or(1.0);
+                    let (a, b) = (gen::affordable_iters(&scn.planner, l, ext, 1 + rng.below(o.max_iters)), gen::affordable_iters(&scn.planner, l, ext, 1 + rng.below(o.max_iters)));
+                    scn.calls = vec![CallSpec::Setup { problem: 0 }, solve_budget(a), CallSpec::Setup { problem: 1 }, solve_budget(b)];
+                    for p in &mut scn.problems {
+                        if p.goal.sampler == GoalSampler::Planner {
+                            p.goal.sampler = GoalSampler::Harness;
+                        }
+                    }
+                } else {
+                    with_histories(&mut scn, &mut rng, o.max_iters.min(120), &["open", "open", "balls"], false);
+                }
+            }
+            "C05" if index % 5 == 4 => {
+                with_histories(&mut scn, &mut rng, o.max_iters.min(120), &["open", "balls", "shell_door"], false);
             }
             "C03" => {
                 // long edges: RRT* radii >> step, PRM radii spanning walls
@@ -817,7 +870,7 @@ fn c08_small_world(rng: &mut Xo, kind: PlannerKind, seed: u64, index: u64) -> Sc
     scn.problems.push(ProblemSpec {
         starts: vec![s2],
         goal: GoalSpec { target: t2, radius: g.radius, sampler: GoalSampler::Harness, sampler_seed: g.sampler_seed + 1, comp: None },
-        world: 0,
+        world: 0, space: None
     });
     scn
 }
